@@ -102,6 +102,11 @@ func C17() *runner.Property {
 			for i := 0; i < ns; i++ {
 				cs = append(cs, runner.MkCase("storage", fmt.Sprint(i), c17Params{Part: "storage", Seed: r.U64(), Sub: []string{"before", "concurrent", "after", "before-two-sets", "mixed"}[i%5]}))
 			}
+			// the storage is set only after the waiting callers have logged their first "still waiting" warning (10 s)
+			cs = append(cs, runner.MkCase("storage", "long-wait-0", c17Params{Part: "storage", Seed: r.U64(), Sub: "before-long"}))
+			if tier == "thorough" {
+				cs = append(cs, runner.MkCase("storage", "long-wait-1", c17Params{Part: "storage", Seed: r.U64(), Sub: "before-long"}))
+			}
 			for i := 0; i < nk; i++ {
 				cs = append(cs, runner.MkCase("tokens", fmt.Sprint(i), c17Params{Part: "tokens", Seed: r.U64(), Count: 3000}))
 			}
@@ -243,6 +248,22 @@ func runRaceFleet(p c17Params, env *runner.Env, res *runner.Result) {
 	b.Put(snapshot.Name("db", "x", "GX", ts), wire.Gzip(wire.EncodeSnapshot(xs)))
 	n := 2 + r.Intn(3)
 	ctx, cancel := context.WithCancel(context.Background())
+	// undecodable blobs of several instances, with more arriving during the run: the downloaders mark them corrupt
+	// while the receiver walks its listings
+	for ci := 0; ci < 4; ci++ {
+		b.Put(snapshot.Name("db", fmt.Sprintf("c%d", ci), "GX", ts.Add(time.Duration(ci)*time.Second)), []byte("not a gzip stream"))
+	}
+	cr := r.Derive(991)
+	go func() {
+		for k := 0; ; k++ {
+			select {
+			case <-ctx.Done():
+				return
+			case <-time.After(time.Duration(500+cr.Intn(2500)) * time.Microsecond):
+			}
+			b.Put(snapshot.Name("db", fmt.Sprintf("c%d", cr.Intn(4)), "GX", ts.Add(time.Minute+time.Duration(k)*time.Second)), []byte("still not a gzip stream"))
+		}
+	}()
 	var insts []*inst.Inst
 	var loops []*sched.Loop
 	var subWG sync.WaitGroup
@@ -794,6 +815,10 @@ func runStorage(p c17Params, res *runner.Result) {
 	case "before":
 		startGetters(k)
 		time.Sleep(time.Duration(1+r.Intn(20)) * time.Millisecond)
+		storage.SetGlobal(st1)
+	case "before-long":
+		startGetters(k)
+		time.Sleep(10*time.Second + time.Duration(300+r.Intn(700))*time.Millisecond)
 		storage.SetGlobal(st1)
 	case "concurrent":
 		go storage.SetGlobal(st1)
